@@ -29,7 +29,7 @@ wsvars == <<wst, schema, cur, done, sink, impl>>
 
 \* ---- the property, as predicates over observable facts (shared with SinkTrace)
 \* OK from close implies all bytes reached the sink
-WSAckComplete(closeOk, accepted, complete) == closeOk => accepted = complete
+WSAckComplete(closeOk, allReached) == closeOk => allReached
 \* the sink failed => some call, at the latest close, returned non-OK
 WSFailReported(sinkFailed, anyErr) == sinkFailed => anyErr
 \* abort: no handle, and no file behind for path writers
@@ -106,7 +106,7 @@ WSAbort ==
     /\ impl' = [impl EXCEPT !.handle = FALSE, !.exists = IF impl.owned /\ RemoveOnAbort THEN FALSE ELSE @]
 
 \* ---- invariants = the property on the model state
-WSInvAck == WSAckComplete(impl.closeRet = "ok", sink.acc, SkRange(0, sink.pos))
+WSInvAck == WSAckComplete(impl.closeRet = "ok", SkEverything(sink))
             /\ (impl.closeRet = "ok" /\ wst = "closed" => sink.pos = WSFileLen(done))
 WSInvReported == impl.closeRet # "none" => WSFailReported(sink.failed, impl.anyErr)
 WSInvAbort == wst = "aborted" => WSAbortClean(impl.owned, impl.handle, impl.exists)
